@@ -417,6 +417,33 @@ theorem C16_entity_key_paths (pkg : Str) (e : J5V.Compile.Entity)
         exact ⟨⟨⟨by decide, by decide, by decide⟩, by decide⟩, rfl⟩)
     simpa [entityEventsDecl] using this
 
+/-- an entity with one event (non-vacuity of `C16_entity_events_partial`) -/
+def exampleEntityWithEvent : J5V.Compile.Entity :=
+  { name := b!"Foo", baseUrl := [], keys := [], data := [], statuses := [], events := [.mk b!"Create" [] [] none],
+    commands := [], summaries := [], query := none, nested := [] }
+
+/-- full strength: the event oneof every entity expands to is a valid proto oneof -/
+def EntityEventsFull : Prop := ∀ e : J5V.Compile.Entity, eventOneofValid e = true
+
+/-- false of the code as it is (open finding `api:err:empty-event-oneof`, the C16 face of C17's open
+finding): an entity without events compiles, its `…EventType` message has an empty oneof, and
+`structure.APIFromImage` refuses the image (replay: the corpus op `chain foo.v1 0 0 0 1 Foo … 0 0`) -/
+theorem C16_entity_events_counterexample : ¬ EntityEventsFull := by
+  intro h
+  have := h { name := b!"Foo", baseUrl := [], keys := [], data := [], statuses := [], events := [], commands := [],
+              summaries := [], query := none, nested := [] }
+  revert this
+  decide
+
+/-- … and holds for every entity that declares at least one event -/
+theorem C16_entity_events_partial (e : J5V.Compile.Entity) (h : e.events ≠ []) : eventOneofValid e = true := by
+  unfold eventOneofValid J5V.Compile.Entity.eventOneof
+  cases he : e.events with
+  | nil => exact absurd he h
+  | cons a rest => simp [J5V.Compile.ObjDecl.props]
+
+example : exampleEntityWithEvent.events ≠ [] := by decide
+
 /-! ## schemas of the client API -/
 
 /-- `collectPackageRefs` over the client view terminates for every schema graph and package -/
@@ -691,5 +718,25 @@ theorem C16_src_enum_defaults :
     ∧ buildEnumFacts = ["strings.HasSuffix unspecifiedVal suffix", "strings.TrimSuffix unspecifiedVal suffix",
         "strings.TrimPrefix values[…].name trimPrefix"]
     ∧ listEnumLookupFacts = ["enumSchema.OptionByName val", "eq foundVal nil"] := by decide
+
+/-- the shapes the flatten / list-request / OpenAPI models rely on are in the source:
+`clientProperties` appends itself to `flattening`, expands a flattened field only when its object is
+not in `flattening`, and keeps every other property; `fillRequest` builds the list request exactly
+for a `QueryRequest` property and refuses a missing response body (`fix:` d14b8cb);
+`buildListRequest` refuses a second array and a missing one; its callback looks at enum fields and
+scalar schemas only (so the list rules of a oneof field have no effect); `addMethod` appends to the
+first path item with the method's path, else appends a new one; `BuildSwagger` takes the declared
+services of every package (not the entity services) -/
+theorem C16_src_flatten_list_swagger :
+    clientPropertiesFacts = ["flattening = append(flattening, s)",
+      "if propType.Flatten && !slices.Contains(flattening, propType.Schema())",
+      "properties = append(properties, child)", "continue", "properties = append(properties, prop)"]
+    ∧ fillRequestListFacts = ["if isQueryRequest", "if responseSchema == nil"]
+    ∧ listRequestShapeFacts = ["if !ok", "if !ok", "if foundArray != nil", "if foundArray == nil", "if !ok"]
+    ∧ listRequestOuterArms = ["*j5schema.EnumField", "*j5schema.ScalarSchema"]
+    ∧ swaggerAddMethodFacts = ["if pathItem.MapKey() == method.HttpPath", "break", "if !found",
+        "dd.Paths = append(dd.Paths, pathItem)"]
+    ∧ swaggerRangeLoops = ["range b.Packages", "range pkg.Services", "range b.Packages", "range pkg.Schemas"] := by
+  decide
 
 end J5V.Props.C16
